@@ -12,6 +12,9 @@ CLAUSE = ("(RF-TAB) vbi_proxyd_check_msg has an explicit case for every VBIPROXY
           "owner is set to NONE on every path on which there is one; (RF-DOM) a protocol error (read error, bad message, message "
           "in the wrong state) reaches vbi_proxyd_close for that client; a client's queued frames are drained before a service "
           "update that may stop acquisition and free the queue.")
+CLAUSE = CLAUSE + (" (RF-STATE) a client known to be in a holder state (GRANTED, RECLAIM, RELEASE) is moved to a state in which the "
+                   "token counts as free only in the confirmed handlers of that client's own messages; (RF-LOCK) every daemon "
+                   "function releases what it locked, never locks a mutex it holds, and the lock order is acyclic.")
 NOT_DECIDED = "service to the other clients after a fault (liveness), timeouts, the scheduler's fairness."
 
 UNIT = "daemon/proxyd.c"
@@ -33,6 +36,10 @@ def run(ctx, run):
     _grant_site(ctx, run, P.need("vbi_proxyd_token_grant", UNIT))
     _errors_close(ctx, run, P.need("vbi_proxyd_handle_client_sockets", UNIT))
     _drain_before_update(ctx, run, take)
+    _holder_leaves_by_own_message(ctx, run)
+    # 'nor stops serving': a mutex taken twice or kept at a return blocks the daemon for everybody (shared with C18)
+    from . import C18
+    C18.lock_discipline(ctx, run)
 
 
 # --------------------------------------------------------------------------
@@ -646,3 +653,60 @@ def _idle_means_nothing_received(ctx, run, f):
         run.violation("RF-DEP", key, "vbi_proxy_msg_is_idle decides on %s: readLen is only set once the whole 8 byte header has "
                       "arrived, so a connection holding 1 ... 7 header bytes counts as idle and the next write to it trips "
                       "vbi_proxy_msg_write's assertion - the daemon aborts" % sorted(flds), "%s:%d" % (f.file, f.line))
+
+
+# a client in one of these states has the token in its hands (GRANTED), or is about to be / has
+# been asked to give it back (RECLAIM, RELEASE); in the others it does not hold it
+HOLDER = ("REQ_TOKEN_GRANTED", "REQ_TOKEN_RECLAIM", "REQ_TOKEN_RELEASE")
+GIVEN_UP = {("vbi_proxyd_take_message", "REQ_TOKEN_RELEASE", "REQ_TOKEN_NONE"):
+            "CHN_RECLAIM_CNF from that client: it confirms that it gave the token back",
+            ("vbi_proxyd_token_grant", "REQ_TOKEN_RELEASE", "REQ_TOKEN_GRANT"):
+            "the holder itself asks for the token again while its release is pending"}
+
+
+def _holder_leaves_by_own_message(ctx, run):
+    """RF-STATE: a client known to be in a holder state (GRANTED, RECLAIM, RELEASE) is moved to
+    a state in which the scheduler treats the token as free (NONE, RETURNED, GRANT) only where a
+    message from that very client is being handled (the confirmed instances above).  Doing it
+    where the daemon merely *sent* the reclaim request hands the token to the next client while
+    the holder is still silent - two clients hold it."""
+    P = ctx.prog
+    names = {v: k for k, v in P.enums.get("REQ_TOKEN_STATE", {"enumerators": {}})["enumerators"].items()}
+    n = 0
+    used = set()
+    for f in P.funcs:
+        if f.unit != UNIT:
+            continue
+        for bid, i in flow.all_events(f):
+            for lhs, var, op, rhs in flow.stores(f, i):
+                if lhs is None:
+                    continue
+                l = f.exprs[ex.skip(f, lhs)]
+                if not (l["k"] == "mem" and "%s.%s" % (l.get("in"), l["member"]) == F_TOK):
+                    continue
+                new = names.get(ex.const(f, rhs)) if rhs is not None else None
+                path = ex.path(f, lhs)
+                prior = {names.get(a.R.const) for a in atoms.atoms_at(f, i)
+                         if a.rel == "==" and a.L.node is not None and ex.path(f, a.L.node) == path and a.R is not None
+                         and a.R.const is not None}
+                prior = {p for p in prior if p in HOLDER}
+                if not prior or new is None or new in HOLDER:
+                    continue
+                n += 1
+                run.touch(f)
+                for p in sorted(prior):
+                    key = "RF-STATE:%s:holder:%s->%s" % (f.name, p, new)
+                    why = GIVEN_UP.get((f.name, p, new))
+                    if why:
+                        used.add((f.name, p, new))
+                        run.holds("RF-STATE", key, "confirmed instance: %s" % why, ex.loc(f, i))
+                    else:
+                        run.violation("RF-STATE", key, "%s() moves a client from %s (it has the token) to %s, a state in which the "
+                                      "scheduler gives the token to the next client, at a place where no message of that client is "
+                                      "being handled: the token is granted again while the holder has neither returned it nor "
+                                      "confirmed the reclaim" % (f.name, p, new), ex.loc(f, i),
+                                      witness={"function": f.name, "from": p, "to": new})
+    for k in GIVEN_UP:
+        if k not in used:
+            raise AnalysisBroken("confirmed token transition %s -> %s in %s() no longer found" % (k[1], k[2], k[0]))
+    run.floor("holder -> free transitions of the token state", n, 2)
